@@ -31,6 +31,8 @@ CLAIMED = {
          "decides the limit clauses C14-CAP/EXACT/USE/WIRE (hard <= half of remaining after overhead, soft <= hard, movetime unchanged, correct limit polled, tokens wired to the matching colour's clock); the wall-clock clause is not decided (timing is outside static reach)"),
  "C15": ("sibling agreement of incremental and from-scratch term lists, who-may-write",
          "decides the structural clauses C15-PAIR/INV/SAME/WRITERS (edit/accumulator pairing, inverse updates, same term functions over all squares, writers), not numeric equality as such"),
+ "C16": ("expression-shape check of the tapered blend, mirrored table construction (symbolic builders, numerically evaluated index maps), constant interval bound over evaluated parameter tables",
+         "decides the clauses C16-BLEND/MIRROR/BOUND (weights w and MAX-w of one clamped w, black tables = negated rank-flipped white tables from the same definitions, per-colour terms combined with the matching sign, evaluation bound strictly inside the mate threshold), not equality of mirrored evaluations for all positions"),
  "C19": ("guard dominance on probe/store, index provenance, decision-table enumeration of the replacement predicate",
          "decides the structural clauses C19-KEY/POLICY/IDX/CLEAR/ZERO/GEN/WRITERS/PREF, not arbitrary operation sequences"),
 }
